@@ -25,8 +25,8 @@ pub fn generate(r: &mut Prng, seed: u64, run: u64, thorough: bool) -> Scenario {
         4..=7 => "truncate",
         _ => "disk",
     };
-    if r.chance(1, 160) {
-        // more than 65 535 term records in one file, in each format version
+    if run % (if thorough { 2_000 } else { 160 }) == 80 {
+        // more than 65 535 term records in one file, in each format version (fixed run indices: in every batch)
         let n = r.urange(65_536, 65_800);
         let facts = crate::facts::many_terms_facts(r, n, true);
         let mut replicas = vec![];
